@@ -528,7 +528,12 @@ func genDispatch(t *rapid.T, q2heavy bool) DCase {
 			}
 			c.Steps = append(c.Steps, st)
 		case k < 6:
-			c.Steps = append(c.Steps, DStep{K: "unsub", Filters: []string{rapid.SampledFrom(dFilters).Draw(t, "uf")}})
+			// one to three filters per request; some of them are usually not subscribed
+			st := DStep{K: "unsub"}
+			for j, m := 0, rapid.SampledFrom([]int{1, 1, 2, 3}).Draw(t, "nuf"); j < m; j++ {
+				st.Filters = append(st.Filters, rapid.SampledFrom(dFilters).Draw(t, "uf"))
+			}
+			c.Steps = append(c.Steps, st)
 		case k < 15:
 			q := byte(rapid.IntRange(0, 2).Draw(t, "q"))
 			if q2heavy && rapid.Bool().Draw(t, "force-q2") {
